@@ -332,6 +332,32 @@ func varsCmd(args []string) error {
 		}
 		os.RemoveAll(home)
 	}
+	// implementation only (the model's exec is a function of the command text): two exec(...) calls with the same text are two
+	// executions; each variable holds the output of its own
+	if *shard == 0 {
+		home := filepath.Join(tmp, "twice")
+		proj := filepath.Join(home, "proj")
+		os.MkdirAll(proj, 0o755)
+		call := `exec("echo run >> runs.log; grep -c run runs.log")`
+		src := "ONE := " + call + "\nTWO := " + call + "\n\ntask t() {\n    echo {{.ONE}} {{.TWO}}\n    echo $ONE $TWO\n}\n"
+		os.WriteFile(filepath.Join(proj, "spokfile"), []byte(src), 0o644)
+		cmd := exec.Command(*spok, "--json", "t")
+		cmd.Dir = proj
+		cmd.Env = []string{"HOME=" + home, "PATH=/usr/bin:/bin"}
+		var so bytes.Buffer
+		cmd.Stdout = &so
+		err := cmd.Run()
+		var doc []jsonTask
+		st.Kinds["same-exec-text-twice(impl only)"]++
+		if err != nil || json.Unmarshal(so.Bytes(), &doc) != nil || len(doc) != 1 || len(doc[0].Results) != 2 {
+			st.OracleFail["C13"]++
+			fmt.Fprintf(bo, "C13 %s two variables defined by the same exec text: spok failed or printed an unexpected document: %v %q\n", hx(src), err, so.String())
+		} else if c, o := doc[0].Results[0].Cmd, doc[0].Results[1].Stdout; c != "echo 1 2" || o != "1 2\n" {
+			st.OracleFail["C13"]++
+			fmt.Fprintf(bo, "C13 %s ONE and TWO are defined by two executions of a command that counts its own runs: the values are 1 and 2, but the command reads %q and the environment gives %q\n", hx(src), c, strings.TrimSpace(o))
+		}
+		os.RemoveAll(home)
+	}
 	bc.Flush()
 	bi.Flush()
 	bo.Flush()
